@@ -4,6 +4,7 @@ CONSTANTS
   MinG = 1
   MaxG = 2
   MaxDepth = 1
+  MinDepth = 0
   MaxIn = 2
   MaxOut = 1
   MaxExtraOut = 0
@@ -11,6 +12,7 @@ CONSTANTS
   LeafChoices <- LeafQuick
   Kinds = {"graph"}
   MaxOutsCard = 9
+  Growing = FALSE
   EmitOn = TRUE
 INIT Init
 NEXT Next
